@@ -100,8 +100,10 @@ fn datagrams() -> RunResult {
         .collect();
     let capacity = 1u32 << sim::range("ring.capacity.log2", 0, 4);
     let pool_len = [16usize, 64, 256][sim::choose("bufpool.len", 3)];
+    // the sockets of a run are IPv4 or IPv6 ones (a source address of 16 or of 28 bytes)
+    let host = if sim::flip("ipv6", 1, 3) { "[::1]:0" } else { "127.0.0.1:0" };
     let seed = sim::subseed("payload");
-    sim::log(|| format!("ring capacity {capacity}, pool buffers of {pool_len}; {cfg:?}"));
+    sim::log(|| format!("ring capacity {capacity}, pool buffers of {pool_len}, sockets on {host}; {cfg:?}"));
     sim::log(|| format!("send: {txs:?}"));
     sim::log(|| format!("receive: {rxs:?}"));
     let errs = Errs::default();
@@ -113,10 +115,10 @@ fn datagrams() -> RunResult {
             let iour = draw_driver(&mut pb) == compio_driver::DriverType::IoUring;
             let rt = compio_runtime::Runtime::builder().with_proactor(pb).build().expect("runtime");
             rt.block_on(async {
-                let Ok(rx) = compio_net::UdpSocket::bind("127.0.0.1:0").await else { return };
-                let Ok(tx) = compio_net::UdpSocket::bind("127.0.0.1:0").await else { return };
-                let Ok(txc) = compio_net::UdpSocket::bind("127.0.0.1:0").await else { return };
-                let Ok(envs) = std::net::UdpSocket::bind("127.0.0.1:0") else { return };
+                let Ok(rx) = compio_net::UdpSocket::bind(host).await else { return };
+                let Ok(tx) = compio_net::UdpSocket::bind(host).await else { return };
+                let Ok(txc) = compio_net::UdpSocket::bind(host).await else { return };
+                let Ok(envs) = std::net::UdpSocket::bind(host) else { return };
                 let (Ok(rx_addr), Ok(tx_addr), Ok(txc_addr), Ok(env_addr)) = (rx.local_addr(), tx.local_addr(), txc.local_addr(), envs.local_addr()) else { return };
                 if txc.connect(rx_addr).await.is_err() {
                     return;
